@@ -370,7 +370,12 @@ namespace occa {
           return NULL;
         }
 
-        exprNode *blockValue = magicIterator.wrapInParentheses();
+        // The hardware index may be narrower than the iterator or unsigned:
+        //   convert it before any arithmetic, [long i = -3 + blockIdx.x] wraps at 2^32
+        parenCastNode hardwareIndex(iterator->source,
+                                    iterator->vartype,
+                                    magicIterator);
+        exprNode *blockValue = hardwareIndex.wrapInParentheses();
         if (updateValue) {
           exprNode *updateInParen = updateValue->wrapInParentheses();
           binaryOpNode mult(iterator->source,
